@@ -337,8 +337,9 @@ func (d *ccDriver) Run(x *sched.Exec, raw json.RawMessage) json.RawMessage {
 	d.mu.Lock()
 	ret := d.returned
 	for i, fs := range d.fn {
-		if fs.waiting && ret {
-			// still inside the function although the call has returned: sample its context
+		if fs.ctx != nil && ret {
+			// the call has returned: the context that was given to this function must be cancelled
+			// (whether the function is still running or not)
 			x.Log(trace.E{"ev": "ctxobs", "f": i + 1, "done": fs.ctx.Err() != nil})
 		}
 	}
